@@ -345,14 +345,16 @@ def report(run, res, items, prefix):
     for (failed, why), rs in sorted(groups.items()):
         rs.sort(key=lambda r: (r["event"]["bodylen"], r["event"]["b"], r["event"]["frame"], r["event"]["backend"]))
         first = rs[0]["event"]
-        it = items[first["b"]]
-        bodies = sorted({r["event"]["b"] for r in rs})
+        it = items[(first["b"], first["frame"] == "hdr")]
+        bodies = sorted({(r["event"]["b"], r["event"]["frame"] == "hdr") for r in rs})
         what = "%s: %s: relation(s) %s rejected by TLC; e.g. body %s = %s (%s framing, %s store); %d observation(s) of %d distinct bod(ies) in this run are rejected with this cause" % (
             prefix, why, ", ".join(failed), first["b"], show_body(it), first["frame"], first["backend"], len(rs), len(bodies))
-        small = [dict(items[b], frame=True) for b in bodies[:6]]
-        run.violation(what, {"item": dict(it, frame=(first["frame"] == "hdr")), "store": first["backend"], "observation": first, "failed": list(failed),
+        small = [items[b] for b in bodies[:8]]
+        bodies = {b for b, _ in bodies}
+        run.violation(what, {"item": it, "store": first["backend"], "observation": first, "failed": list(failed),
                              "same_cause_observations": len(rs), "same_cause_bodies": len(bodies),
-                             "more_examples": [{"b": x["b"], "body": show_body(x), "cls": x.get("cls")} for x in small], "replay_kind": "dotcodec"})
+                             "more_examples": [{"b": x["b"], "frame": "hdr" if x["frame"] else "raw", "body": show_body(x), "cls": x.get("cls")} for x in small],
+                             "replay_kind": "dotcodec"})
     return groups
 
 
@@ -381,15 +383,17 @@ def replay_and_validate(run, vh, beh, items, label, prefix):
 
 
 def replay_file(run, args):
+    """the recorded body in the recorded framing on the recorded back-end, plus - as a control - the same body in the other framing"""
     d = json.load(open(args.replay))
     vh = run.build_harness()
     it = d["item"]
-    beh = batches([it], [d["store"]], "replay", 1)
-    res = replay_and_validate(run, vh, beh, {it["b"]: it}, "replay", "replay")
+    other = make_item(it["b"], base64.b64decode(it["body"]), not it["frame"], it["kind"], cls=it.get("cls"), quirk=it.get("quirk"))
+    beh = batches([it, other], [d["store"]], "replay", 2)
+    res = replay_and_validate(run, vh, beh, {(x["b"], x["frame"]): x for x in (it, other)}, "replay", "replay")
     run.cov["evaluations"] = len(res["events"])
-    run.cov["distinct_nontrivial"] = len(res["events"])
+    run.cov["distinct_nontrivial"] = len({(e["b"], e["frame"]) for e in res["events"] if e["smtp"]["cls"] == "ok"})
     run.cov["samples"] = [{"b": it["b"], "body": show_body(it), "frame": it["frame"], "store": d["store"]}]
-    run.cov["rule"] = "replay of one recorded body"
+    run.cov["rule"] = "replay of one recorded body (and the same body in the other framing as a control)"
 
 
 def c02(run, args):
@@ -426,17 +430,17 @@ def c02(run, args):
         for frame in (True, False):
             it = make_item(bid, body, frame, kind, cls=g["cls"], quirk=g["quirk"])
             enum_items.append(it)
-        items[bid] = it
+            items[(bid, frame)] = it
     sp_items, big_items, strict_items = [], [], []
     for name, body, frames in specials(random.Random("%d/c02/specials" % run.seed), not quick):
         for frame in frames:
             it = make_item("sp-" + name, body, frame, "special")
             (big_items if len(body) > 200000 else sp_items).append(it)
-        items["sp-" + name] = it
+            items[("sp-" + name, frame)] = it
     for name, body in STRICT:
         it = make_item(name, body, True, "strict", strict=True)
         strict_items.append(it)
-        items[name] = it
+        items[(name, True)] = it
     stores = ["mem", "file"]
     beh = batches(enum_items, stores, "enum", 250) + batches(sp_items + strict_items, stores, "special", 12) + batches(big_items, stores, "big", 1)
     nobs = sum(len(b["items"]) for b in beh)
@@ -460,12 +464,12 @@ def c02(run, args):
     run.cov["go_reader_prediction"] = {"predicted_departures": len(pred), "observed_source_departures": len(bad_src),
                                        "predicted_and_observed": len(pred & bad_src), "only_predicted": len(pred - bad_src), "only_observed": len(bad_src - pred)}
     run.cov["strict_client_observations"] = [
-        {"body": show_body(items[e["b"]]), "store": e["backend"], "reply_to_end_of_data": e["smtp"]["code"], "further_replies": e["smtp"]["extra"], "messages_stored": e["total"],
+        {"body": show_body(items[(e["b"], True)]), "store": e["backend"], "reply_to_end_of_data": e["smtp"]["code"], "further_replies": e["smtp"]["extra"], "messages_stored": e["total"],
          "stored_equals_sent": bool(e.get("tail")) and e["tail"]["h"] == e["exp"]["h"] and e["tail"]["clen"] == e["exp"]["clen"]}
         for e in res["events"] if e["a"] == "strictobs"]
     samp = [enum_items[len(enum_items) // 3], enum_items[2 * len(enum_items) // 3 + 1]]
     run.cov["samples"] = [{"b": s["b"], "cls": s.get("cls"), "body": show_body(s), "frame": "hdr" if s["frame"] else "raw"} for s in samp] + \
-                         [{"b": "sp-line70000", "body": show_body(items["sp-line70000"])}, {"observation": next((e for e in stored if e["b"] == samp[0]["b"]), None)}]
+                         [{"b": "sp-line70000", "body": show_body(items[("sp-line70000", True)])}, {"observation": next((e for e in stored if e["b"] == samp[0]["b"]), None)}]
     run.cov["rule"] = ("TLC enumerates every string over the byte classes {DOT, CR, LF, NUL, HI, CH} up to length %d%s (after checking the stuffing / un-stuffing / Canon / POP3 round-trip "
                        "theorems of DotCodec.tla for every string up to length %d); each is spelled as bytes (8-bit and printable/control representatives drawn by seed) and sent twice - behind a fixed "
                        "valid header block and raw - through a real SMTP session by a client that doubles a dot at the start and after every LF and ends the data with CRLF.CRLF; plus %d special bodies "
